@@ -12,11 +12,12 @@ import (
 // ThreadCtx is what the harness knows about the client operation a logical
 // thread is executing (needed to name the block-level operation behind a write).
 type ThreadCtx struct {
-	Op      string        // autoassign | assignip | releaseips | releasebyhandle | claim | releaseaff | ...
-	Host    int           // host id the op runs as
-	Handle  int           // handle id (0 = none)
-	ReqOrds map[int][]int // releaseips: requested ordinals per block id
-	ReqSeq  bool
+	Op           string        // autoassign | assignip | releaseips | releasebyhandle | claim | releaseaff | ...
+	Host         int           // host id the op runs as
+	Handle       int           // handle id (0 = none)
+	ReqOrds      map[int][]int // releaseips: requested ordinals per block id
+	ReqSeq       bool
+	RequireEmpty bool // releaseaff / relhostaff with mustBeEmpty
 }
 
 // ReservedOrdinals of block b (ordinals covered by a reservation CIDR),
@@ -210,10 +211,14 @@ func (e *Env) classifyBlock(k model.BlockKey, st *Step, ctx *ThreadCtx) string {
 	case len(newLive) > 0 && len(rel) > 0:
 		return "ev=unknown"
 	case len(newLive) > 0:
-		if ctx != nil && ctx.Op == "assignip" && len(newLive) == 1 {
-			return fmt.Sprintf("ev=assignip h=%d o=%d %s", h, newLive[0], gc)
+		own := "own=-"
+		if e.Strict && ctx != nil {
+			own = fmt.Sprintf("own=%d", ctx.Host)
 		}
-		return fmt.Sprintf("ev=assign h=%d k=%d rv=%s %s", h, len(newLive), joinInts(e.ReservedOrdinals(bid)), gc)
+		if ctx != nil && ctx.Op == "assignip" && len(newLive) == 1 {
+			return fmt.Sprintf("ev=assignip h=%d o=%d %s %s", h, newLive[0], gc, own)
+		}
+		return fmt.Sprintf("ev=assign h=%d k=%d rv=%s %s %s", h, len(newLive), joinInts(e.ReservedOrdinals(bid)), gc, own)
 	case len(rel) > 0:
 		kind := "upd"
 		if deleted {
